@@ -847,6 +847,26 @@ class GenC08(Gen):
     def p_mapset_new(self, game=None):
         return super().p_mapset_new(game or self.r.choice(["sm", "o2j"]))
 
+    same_time_tempo_p = 0.15
+
+    def p_map_new(self, game=None, **kw):
+        """Round 14: two tempo points on one time (stacked red lines in osu!, a point appended at a time that already has
+        one) are legal sources; the later row is the one in force and a converter keeps both. The coin comes from a
+        stream of its own (seeded by the tempo rows), so the sessions generated before this producer existed are unchanged
+        apart from the extra row."""
+        op = super().p_map_new(game, **kw)
+        bp = op["lists"].get("bpms") or []
+        rr = random.Random("same-time-tempo:" + repr([(b["offset"], b["bpm"]) for b in bp]))
+        if len(bp) >= 2 and rr.random() < self.same_time_tempo_p:
+            order = sorted(range(len(bp)), key=lambda i: bp[i]["offset"])
+            i = rr.choice(order[1:])
+            twin = dict(bp[i])
+            twin["bpm"] = float(rr.choice([90, 150, 180, 240]))
+            if twin["bpm"] == bp[i]["bpm"]:
+                twin["bpm"] += 15.0
+            bp.insert(i + 1, twin)
+        return op
+
 
 class GenC13(Gen):
     table = dict(map_new=8, mapset_new=4, map_edit_list=4, stack=2, stack_assign=2, stack_loc=2, rate=16, mutate_result=6,
